@@ -121,6 +121,23 @@ class Module:
                 self.assigns[st.targets[0].id] = st.value
             elif isinstance(st, ast.AnnAssign) and isinstance(st.target, ast.Name) and st.value is not None:
                 self.assigns[st.target.id] = st.value
+        # module-level names bound inside a compound statement of the module body (`if sys.platform ...: X = [...] else: X = [...]`)
+        self.cond_assigns: dict[str, list[ast.AST]] = {}
+
+        def nested(body):
+            for st in body:
+                if isinstance(st, (ast.If, ast.Try, ast.With, ast.For, ast.While)):
+                    for fld in ("body", "orelse", "finalbody"):
+                        inner = getattr(st, fld, []) or []
+                        for s2 in inner:
+                            if isinstance(s2, ast.Assign) and len(s2.targets) == 1 and isinstance(s2.targets[0], ast.Name):
+                                self.cond_assigns.setdefault(s2.targets[0].id, []).append(s2.value)
+                            elif isinstance(s2, ast.AnnAssign) and isinstance(s2.target, ast.Name) and s2.value is not None:
+                                self.cond_assigns.setdefault(s2.target.id, []).append(s2.value)
+                        nested(inner)
+                    for h in getattr(st, "handlers", []) or []:
+                        nested([ast.If(test=ast.Constant(True), body=h.body, orelse=[])])
+        nested(self.tree.body)
 
     def func(self, qualname: str) -> Func:
         f = self.funcs.get(qualname)
